@@ -20,7 +20,7 @@ RULE = (
     "processor, an async processor raising before its internal yield and one raising after it, plus fail-on-every-event and fail-at-shutdown, "
     "placed before or after a healthy recorder. Non-trivial = the failing processor actually raised; distinct = digest of (program shape, "
     "runner, failure index, variant, placement)."
-    ' The injected node failure (if any) is of one of five kinds incl. an exception without arguments. Processor objects are plain, unhashable (__eq__ without __hash__) or all-equal; the top-level map may be over an empty list. Cache dimension: cache-enabled runner, cacheable synchronous-bodied nodes and duplicate map items (a suspending processor must not decide whether a duplicate is a cache hit). Interpreter configuration: RuntimeWarning promoted to an error for all runs of a case.'
+    ' The injected node failure (if any) is of one of five kinds incl. an exception without arguments. Processor objects are plain, unhashable (__eq__ without __hash__) or all-equal; the top-level map may be over an empty list. Cache dimension: cache-enabled runner, cacheable synchronous-bodied nodes and duplicate map items (a suspending processor must not decide whether a duplicate is a cache hit). Interpreter configuration: RuntimeWarning promoted to an error for all runs of a case; node functions drawing from the process-wide random module, seeded identically before every run.'
 )
 ASSUMPTIONS = [
     "healthy recorder's stream is compared exactly (canonical ids) for the sync runner and as a canonical span tree for the async runner, where a yielding failing processor may legitimately shift the interleaving of concurrent siblings",
@@ -40,6 +40,11 @@ def gen_case(rng: random.Random, tier: str) -> dict:
     cfg["shuffle"] = None
     for nd, _d in fns:
         nd["_c13_cacheable"] = rng.random() < 0.7
+    if fns and rng.random() < 0.25:
+        # a node drawing from the process-wide random module; the check seeds it identically before every run of the case
+        cand = [nd for nd, _d in fns if nd.get("outs") and not nd.get("beh") and not nd.get("gen")]
+        if cand:
+            rng.choice(cand)["beh"] = "globalrand"
     bounded_raise = bool(faults) and rng.random() < 0.5  # raise-mode map over a worker pool (max_concurrency 2) with a failing item
     return {
         "graph": g,
@@ -108,8 +113,21 @@ def run_case(doc: dict) -> dict:
             if nd.get("_c13_cacheable") and nd["kind"] == "fn" and not nd.get("gen"):
                 nd["cache"] = True
 
+    def _seed_global_random(rt, graph, comp):
+        import random as _random
+
+        _random.seed(20261001)
+
+    g_async = g
+    if any(nd.get("beh") == "globalrand" for nd, _d in gen.fn_nodes(g)):
+        # (only under the sync runner: with concurrently running nodes the ORDER of the draws is a race that processors may shift)
+        g_async = copy.deepcopy(g)
+        for nd, _d in gen.fn_nodes(g_async):
+            if nd.get("beh") == "globalrand":
+                nd.pop("beh")
+
     def world(mode, procs_factory=None):
-        w = run_world(g, values, mode=("async_syncfn" if (use_cache and mode == "async") else mode), cfg=doc["async"] if mode == "async" else None, cache=InMemoryCache() if use_cache else None, warn_errors=bool(doc.get("warn_errors")), faults=copy.deepcopy(faults), run_kwargs=dict(kw), op=op, processors_factory=procs_factory)
+        w = run_world(g if mode == "sync" else g_async, values, mode=("async_syncfn" if (use_cache and mode == "async") else mode), cfg=doc["async"] if mode == "async" else None, cache=InMemoryCache() if use_cache else None, warn_errors=bool(doc.get("warn_errors")), prepare=_seed_global_random, faults=copy.deepcopy(faults), run_kwargs=dict(kw), op=op, processors_factory=procs_factory)
         rts.append(w["rt"])
         res["runs"] += 1
         sim_stats(res, w["out"])
